@@ -40,6 +40,7 @@ def check(model: Model, run: Run) -> None:
     # ---- recursion: no value is descended into twice by one frame --------------------------
     double_descent(model, run)
     error_text_growth(model, run)
+    allocations_follow_the_input(model, run)
 
 
 E4_FIXTURE = '''
@@ -234,10 +235,72 @@ def double_descent(model: Model, run: Run) -> None:
             evs = list({id(c): c for t_, cs in sites[q].items() if t_ in members for c in cs}.values())
             pairs = _double_descents(fi.node, evs)
             run.ob("E4-no-double-descent", not pairs, {"function": q.split("sansldap.")[-1], "recursive_call_sites": len(evs)})
+            # E6: ... nor parses a piece again because parsing it failed: a recursive call in a handler of the `try` around a
+            # recursive call runs the whole descent a second time on the error path, at every level the error passes through
+            for tr in walk_no_nested(fi.node):
+                if not isinstance(tr, ast.Try):
+                    continue
+                in_body = [c for c in evs if any(x is c for b in tr.body for x in ast.walk(b))]
+                in_handlers = [c for c in evs if any(x is c for h in tr.handlers for b in h.body for x in ast.walk(b))]
+                run.ob("E6-no-second-descent-on-failure", not (in_body and in_handlers), {"function": q.split("sansldap.")[-1], "try_line": tr.lineno})
+                if in_body and in_handlers:
+                    run.fail(Finding("E6-no-second-descent-on-failure", q, f"{norm(in_body[0])[:50]} / except: {norm(in_handlers[0])[:50]}",
+                                     f"{fi.name} is part of the recursive group {[x.split('.')[-1] for x in comp]}: when `{norm(in_body[0])[:50]}` fails, its handler descends into the same "
+                                     f"input again with `{norm(in_handlers[0])[:50]}`; an error deep inside is re-parsed at every level it passes through (2^depth)",
+                                     model.loc(fi.module, in_handlers[0])))
             for c1, c2 in pairs:
                 run.fail(Finding("E4-no-double-descent", q, f"{norm(c1)[:50]} -> {norm(c2)[:50]}",
                                  f"{fi.name} is part of the recursive group {[x.split('.')[-1] for x in comp]}: the value produced by the recursive call `{norm(c1)[:60]}` "
                                  f"is descended into again by `{norm(c2)[:60]}` in the same frame; each nesting level doubles the work (2^depth)", model.loc(fi.module, c2)))
+
+
+def allocations_follow_the_input(model: Model, run: Run, rule: str = "E7-no-allocation-sized-by-a-decoded-number") -> None:
+    """E7: memory is allocated for bytes that have arrived, never for a number the bytes announce: `bytearray(n)`, `bytes(n)`,
+    `b"\\0" * n`, `[x] * n` with n computed from a decoded length (a header's `length` / `tag_length`, the result of
+    `read_integer`) costs time and memory proportional to a number inside the input - 256 times more per extra length octet -
+    whatever the size of the input."""
+    n = 0
+    for fq, fi in sorted(model.functions.items()):
+        if isinstance(fi.node, ast.Lambda) or fi.module.endswith(".schema"):
+            continue
+        tainted = set()
+        def is_tainted(e: ast.expr) -> bool:
+            for x in ast.walk(e):
+                if isinstance(x, ast.Attribute) and x.attr in ("length", "tag_length") and not (isinstance(x.value, ast.Name) and x.value.id == "self"):
+                    return True
+                if isinstance(x, ast.Call) and isinstance(x.func, ast.Attribute) and x.func.attr in ("read_integer", "read_enumerated"):
+                    return True
+                if isinstance(x, ast.Name) and x.id in tainted:
+                    return True
+            return False
+        for _ in range(3):
+            for a in walk_no_nested(fi.node):
+                if isinstance(a, (ast.Assign, ast.AnnAssign, ast.AugAssign)) and getattr(a, "value", None) is not None and is_tainted(a.value):
+                    for t_ in (a.targets if isinstance(a, ast.Assign) else [a.target]):
+                        if isinstance(t_, ast.Name):
+                            tainted.add(t_.id)
+        for c in walk_no_nested(fi.node):
+            size = None
+            if isinstance(c, ast.Call) and isinstance(c.func, ast.Name) and c.func.id in ("bytearray", "bytes") and len(c.args) == 1 and not c.keywords:
+                a0 = c.args[0]
+                # bytes(<int>) allocates; bytes(<buffer>) copies - only a plain arithmetic expression can be an int here
+                if isinstance(a0, (ast.Name, ast.BinOp)) or (isinstance(a0, ast.Call) and isinstance(a0.func, ast.Name) and a0.func.id in ("max", "min", "int")):
+                    if isinstance(a0, ast.Name) and a0.id not in tainted:
+                        continue
+                    size = a0
+            elif isinstance(c, ast.BinOp) and isinstance(c.op, ast.Mult) and any(isinstance(s_, (ast.List, ast.Constant)) and (isinstance(s_, ast.List) or isinstance(s_.value, (bytes, str)))
+                                                                                 for s_ in (c.left, c.right)):
+                size = c.right if isinstance(c.left, (ast.List, ast.Constant)) else c.left
+            if size is None:
+                continue
+            n += 1
+            bad = is_tainted(size) and not (isinstance(size, ast.Call) and isinstance(size.func, ast.Name) and size.func.id == "min" and
+                                            any(isinstance(x, ast.Constant) or (isinstance(x, ast.Call) and isinstance(x.func, ast.Name) and x.func.id == "len") for x in size.args))
+            run.ob(rule, not bad, {"function": fq.split("sansldap.")[-1], "allocation": norm(c)[:60]})
+            if bad:
+                run.fail(Finding(rule, fq, norm(c)[:80], f"{fi.name} allocates `{norm(c)[:60]}` where the size comes from a decoded length: a few octets that announce a large value cost "
+                                 "time and memory proportional to the number they announce, not to what was received", model.loc(fi.module, c)))
+    run.ob(rule, True, {"sized_allocations_examined": n})
 
 
 def error_text_growth(model: Model, run: Run) -> None:
